@@ -240,13 +240,20 @@ def rand_ruby(rng, b, parent, mix, budget):
 
   def rt(par):
     k = b.add("rt", par, rand_space(rng, mix))
+    if rng.random() < 0.01:
+      # an annotation of collapsible white space only: it vanishes and the ruby pattern breaks (known finding)
+      b.add("text", b.add("span", k, D), "", rng.choice([" ", "\n ", "\t"]))
+      return
     for _ in range(rng.randint(1, 2)):
-      rand_span(rng, b, k, mix, 2, budget, solid=True)      # never all white space: the rt would vanish (known C01 finding)
+      rand_span(rng, b, k, mix, 2, budget, solid=True)
 
   def rp(par, ch):
     k = b.add("rp", par, rand_space(rng, mix))
     s = b.add("span", k, rand_space(rng, mix))
-    b.add("text", s, "", rng.choice(["", " ", "  "]) + ch + rng.choice(["", " ", "\n"]))
+    if rng.random() < 0.01:
+      ch = ""
+      b.space[s - 1] = D
+    b.add("text", s, "", rng.choice([" ", "  "] if not ch else ["", " ", "  "]) + ch + rng.choice(["", " ", "\n"]))
 
   def rb(par):
     k = b.add("rb", par, rand_space(rng, mix))
@@ -349,8 +356,11 @@ def observe(ad, p_index):
   try:
     isd = ISD.from_model(doc, 0)
   except Exception as ex:  # pylint: disable=broad-except
-    return [{"unit": u, "k": k, "items": src, "out": [], "etext": 0, "espan": 0, "err": 1,
-             "error": "%s: %s" % (type(ex).__name__, str(ex)[:100])} for (u, k), src in zip(units, sources)]
+    # one record per document (the paragraph); which annotation units hold nothing but collapsible white space
+    blank = [u for (u, _), src in zip(units[1:], sources[1:]) if src and not any(x == BR or (is_char(x) and (
+      mode_of(x) == P or cp_of(x) not in (32, 9, 13, 10))) for x in src)]
+    return [{"unit": "p", "k": p_index, "items": sources[0], "out": [], "etext": 0, "espan": 0, "err": 1,
+             "error": "%s: %s" % (type(ex).__name__, str(ex)[:100]), "blank_annotations": sorted(set(blank))}]
   byid = {}
   if isd is not None:
     for region in isd.iter_regions():
@@ -452,7 +462,9 @@ def report(ctx, res, part, label):
       case["doc"], case["p"] = o.get("ad"), o.get("p")
       f["mix"] = o["src"][2]
     if o["err"]:
-      f["error"] = o.get("error", "")[:60]
+      f["error"] = o.get("error", "")[:80]
+      f["blank_rt"] = "rt" in o.get("blank_annotations", [])
+      f["blank_rp"] = "rp" in o.get("blank_annotations", [])
     ctx.violation(clause, case, f, "%s %s: source %s -> snapshot %s (detail %s) %s" % (
       o["unit"], o["src"][0], show(o["items"]), show(o["out"]), detail, o.get("error", "")))
   ctx.traces += len(part)
@@ -511,8 +523,8 @@ def run(ctx):
 
   # 1. the design, exhaustively on the small model (runs while the implementation is driven)
   tlc_pool = ThreadPoolExecutor(max_workers=4)
-  design = tlc_pool.submit(T.run_tlc, "Lwsp", CFG_DESIGN % maxlen, workers=4 if thorough else 2, timeout=1700, name="lwsp_design",
-                           coverage=thorough)
+  design = tlc_pool.submit(T.run_tlc, "Lwsp", CFG_DESIGN % maxlen, workers=4 if thorough else 2, timeout=1700,
+                           name="lwsp_design", coverage=thorough)
 
   # 2. spec -> code: every item sequence of the family; 3. code -> spec: random longer paragraphs.
   # One process pool drives the implementation; a part is handed to a TLC trace run as soon as it is complete.
@@ -527,48 +539,60 @@ def run(ctx):
     docs.append((n, ad, p, mix))
   jobs = [(_enum_chunk, (lo, min(lo + step, total), maxlen, shift)) for shift in shifts for lo in range(0, total, step)]
   jobs += [(_rand_chunk, docs[j:j + 250]) for j in range(0, len(docs), 250)]
-  observations, rand_obs, pending, traces = [], [], [], []
+  pending, traces = [], []
+  tally = {"enum": 0, "random": 0, "skipped_enum": 0, "skipped_random": 0, "longest": 0, "p": 0, "rt": 0, "rp": 0}
+  wanted = {"enum": {total // 2, total - 1}, "random": {0, nrand // 2}}       # cases shown as samples in the evidence
 
   def flush(label):
     part = list(pending)
     del pending[:]
-    name = "%s%d" % (label, len(traces))
-    traces.append((name, part, tlc_pool.submit(run_trace, part, name)))
+    name = "%s%d" % (label, tally["enum"] + tally["random"])
+    traces.append((label, name, part, tlc_pool.submit(run_trace, part, name)))
+
+  def settle(wait):
+    """Report the trace runs that are finished (all of them when wait), oldest first, and let go of their records."""
+    while traces and (wait or traces[0][3].done()):
+      label, name, part, fut = traces.pop(0)
+      tally["skipped_" + label] += report(ctx, fut.result(), part, name)
+
+  def take(obs, label):
+    for o in obs:
+      its = o["items"]
+      if BR in its or any(is_char(x) and cp_of(x) in (32, 9, 13, 10) for x in its):
+        ctx.nontrivial(tuple(x for x in its if x not in (SO, SC)))
+      if o["unit"] == "p" and o["src"][1] in wanted[label] and o["src"][2] != 4:
+        ctx.sample({"unit": o["unit"], "source": show(o["items"]), "snapshot": show(o["out"]), "from": o["src"]})
+      if label == "random":
+        o["ad"], o["p"] = docs[o["src"][1]][1], docs[o["src"][1]][2]
+        tally[o["unit"]] += 1
+        tally["longest"] = max(tally["longest"], len(its))
+    tally[label] += len(obs)
+    pending.extend(obs)
 
   mp = multiprocessing.get_context("fork")
   with mp.Pool(procs) as pool:
     for (fn, _), r in zip(jobs, pool.imap(_dispatch, jobs, chunksize=1)):
       if "bad" in r:
         raise T.MachineryError("document builder does not realise item sequence #%d" % r["bad"])
-      if fn is _enum_chunk:
-        observations.extend(r["obs"])
-      else:
-        if not rand_obs and pending:
-          flush("enum")
-        for o in r["obs"]:
-          o["ad"], o["p"] = docs[o["src"][1]][1], docs[o["src"][1]][2]
-        rand_obs.extend(r["obs"])
-      pending.extend(r["obs"])
+      label = "enum" if fn is _enum_chunk else "random"
+      if label == "random" and tally["random"] == 0 and pending:
+        flush("enum")
+      take(r["obs"], label)
       if len(pending) >= part_size:
-        flush("random" if rand_obs else "enum")
+        flush(label)
+      settle(False)
   if pending:
-    flush("random" if rand_obs else "enum")
+    flush("random")
   ctx.count("enumerated_item_sequences", total)
-  ctx.count("enumerated_documents", len(observations))
+  ctx.count("enumerated_documents", tally["enum"])
   ctx.count("random_documents", nrand)
-  ctx.count("random_units", len(rand_obs))
+  ctx.count("random_units", tally["random"])
   for u in ("p", "rt", "rp"):
-    ctx.count("random_units_" + u, sum(1 for o in rand_obs if o["unit"] == u))
-  ctx.count("random_units_longest", max(len(o["items"]) for o in rand_obs))
+    ctx.count("random_units_" + u, tally[u])
+  ctx.count("random_units_longest", tally["longest"])
 
   # 4. verdicts
-  skipped = skipped_r = 0
-  for name, part, fut in traces:
-    n = report(ctx, fut.result(), part, name)
-    if name.startswith("enum"):
-      skipped += n
-    else:
-      skipped_r += n
+  settle(True)
   res = design.result()
   tlc_pool.shutdown()
   if res.violated:
@@ -578,15 +602,11 @@ def run(ctx):
   inits = int(m.group(1)) if m else -1
   if inits != total:
     raise T.MachineryError("TLC explored %d initial item sequences, the harness built %d" % (inits, total))
-  ctx.count("out_of_domain_skipped_enum", skipped)
-  ctx.count("out_of_domain_skipped_random", skipped_r)
-  ctx.evaluations += len(observations) + len(rand_obs)
-  for o in observations + rand_obs:
-    its = o["items"]
-    if BR in its or any(is_char(x) and cp_of(x) in (32, 9, 13, 10) for x in its):
-      ctx.nontrivial(tuple(x for x in its if x not in (SO, SC)))
-  for o in (observations[total // 2], observations[-1], rand_obs[0], rand_obs[len(rand_obs) // 2]):
-    ctx.sample({"unit": o["unit"], "source": show(o["items"]), "snapshot": show(o["out"]), "from": o["src"]})
+  if tally["enum"] != total * len(shifts):
+    raise T.MachineryError("built %d documents for %d item sequences x %d arrangements" % (tally["enum"], total, len(shifts)))
+  ctx.count("out_of_domain_skipped_enum", tally["skipped_enum"])
+  ctx.count("out_of_domain_skipped_random", tally["skipped_random"])
+  ctx.evaluations += tally["enum"] + tally["random"]
   ctx.exhaustive = True
   ctx.notes.append("notation in samples and violations: _ space, \\n \\t \\r, <br>, <s> </s> inline boundaries; preserve-mode "
                    "characters are upper-cased (letters) or prefixed with ^")
